@@ -37,6 +37,12 @@ Definition rt_msg (f : fmap) (m : wmsg) : msg :=
 (* msg_is_before and q_elem_is_before (the cached timestamp is the message's) *)
 Definition wbefore (f : fmap) (a b : wmsg) : bool := before (rt_msg f a) (rt_msg f b).
 
+(* the same message: same identity (the C code compares pointers) and, redundantly on every reachable state, same body *)
+Definition event_eq_dec : forall a b : event, {a = b} + {a <> b}.
+Proof. decide equality; try apply N.eq_dec. apply (list_eq_dec N.eq_dec). Defined.
+Definition wmsg_eqb (a b : wmsg) : bool :=
+  Pos.eqb (wm_id a) (wm_id b) && (if event_eq_dec (wm_ev a) (wm_ev b) then true else false).
+
 (* an entry of p_msgs: a sent-message marker or a processed message *)
 Inductive entry := ESent (m : wmsg) | EProc (m : wmsg).
 Definition is_proc (e : entry) : bool := match e with EProc _ => true | ESent _ => false end.
@@ -161,12 +167,12 @@ Definition straggler_index (f : fmap) (s : wmsg) (hist : list entry) : nat :=
   end.
 
 (* match_anti_msg: the index where the group of the cancelled processed message starts *)
-Fixpoint find_proc (id : positive) (rh : list entry) (i : nat) : option (nat * list entry) :=
+Fixpoint find_proc (a : wmsg) (rh : list entry) (i : nat) : option (nat * list entry) :=
   (* rh = entries at indexes i-1 ... 0; returns the index of the processed message id and the entries below it *)
   match rh, i with
   | e :: r, S j => match e with
-                   | EProc m => if Pos.eqb (wm_id m) id then Some (j, r) else find_proc id r j
-                   | ESent _ => find_proc id r j
+                   | EProc m => if wmsg_eqb m a then Some (j, r) else find_proc a r j
+                   | ESent _ => find_proc a r j
                    end
   | _, _ => None
   end.
@@ -176,8 +182,8 @@ Fixpoint group_start (rh : list entry) (i : nat) : nat :=
   | e :: r, S j => if is_proc e then S j else group_start r j
   | _, _ => 0
   end.
-Definition anti_index (id : positive) (hist : list entry) : option nat :=
-  match find_proc id (rev hist) (length hist) with
+Definition anti_index (a : wmsg) (hist : list entry) : option nat :=
+  match find_proc a (rev hist) (length hist) with
   | Some (j, below) => Some (group_start below j)
   | None => None
   end.
@@ -247,7 +253,7 @@ Definition process_msg (w : worker) : worker :=
       if has o FLAG_ANTI then
         (* handle_anti_msg: only a message this LP has processed needs a rollback *)
         let w4 := if N.eqb o (FLAG_ANTI + FLAG_PROC) then
-                    match anti_index (wm_id m) (x_hist (get_lp w3 l)) with
+                    match anti_index m (x_hist (get_lp w3 l)) with
                     | Some past_i => do_rollback w3 l past_i
                     | None => set_err w3
                     end
